@@ -348,7 +348,7 @@ def execute_forked(history, alphas, caps):
         return execute_plain(history, alphas, caps)
     tkey = core.jdump(history["cfg"])
     if tkey not in _TEMPLATES:
-        if len(_TEMPLATES) > 6:
+        if len(_TEMPLATES) > 40:
             _TEMPLATES.clear()
         _TEMPLATES[tkey] = (Run(history["cfg"]).build(), world.uid_counter())
     run, uid_n = _TEMPLATES[tkey]
